@@ -1,7 +1,10 @@
 //! In-crate verification harnesses (compiled only under Kani or with feature verif-native).
 pub mod common;
-pub mod probes;
 #[cfg(kani)]
 pub mod c05;
 #[cfg(kani)]
 pub mod c06;
+#[cfg(kani)]
+pub mod sops;
+#[cfg(kani)]
+pub mod bench;
